@@ -244,6 +244,44 @@ func ruleWEB6(w *World, r *Report) {
 					_, isIf := firstIf(bo)
 					return isIf
 				}
+				// the same test made by a validator of the package: a function that returns an error, reaches `return nil`
+				// only past the comparison, and never from its over-limit edge. Its failure edge is the over-limit edge.
+				direct := isCmp
+				validators := map[*ssa.Function]bool{}
+				isValidator := func(g *ssa.Function) bool {
+					if known, seen := validators[g]; seen {
+						return known
+					}
+					ok := false
+					if g != nil && g.Pkg == fn.Pkg && len(g.Blocks) > 0 && g.Signature.Results().Len() == 1 && isErrorType(g.Signature.Results().At(0).Type()) {
+						inner := findInstrs(g, direct)
+						nilRet := func(in ssa.Instruction) bool {
+							rt, isRet := in.(*ssa.Return)
+							return isRet && isNilConst(retVal(rt, 0))
+						}
+						if len(inner) > 0 {
+							ok = true
+							if skip, _ := (pathQuery{fn: g, target: nilRet, avoid: direct, blocked: zeroIterEdges(g, direct)}).find(entryPos(g)); skip {
+								ok = false
+							}
+							for _, cm := range inner {
+								t, _ := condEdges(cm.(ssa.Value))
+								for _, e := range t {
+									if over, _ := (pathQuery{fn: g, target: nilRet}).find(ipos{e.from.Succs[e.succ], -1}); over {
+										ok = false
+									}
+								}
+							}
+						}
+					}
+					validators[g] = ok
+					return ok
+				}
+				viaValidator := func(in ssa.Instruction) bool {
+					vc, ok := in.(*ssa.Call)
+					return ok && isValidator(vc.Call.StaticCallee()) && len(failureEdges(fn, vc)) > 0
+				}
+				isCmp = func(in ssa.Instruction) bool { return direct(in) || viaValidator(in) }
 				cmps := findInstrs(fn, isCmp)
 				if len(cmps) == 0 {
 					r.Bad("WEB-6", key, w.Pos(call.Pos()), fmt.Sprintf("%s passes a request-controlled %s to %s without comparing it with the published limit %d: an over-limit request is processed instead of being refused with 4xx", fi.Obj.Name(), sp.what, sp.callee, sp.limit))
@@ -253,7 +291,14 @@ func ruleWEB6(w *World, r *Report) {
 				okc := !found
 				// from the over-limit edge the engine call must be unreachable
 				for _, cm := range cmps {
-					t, _ := condEdges(cm.(ssa.Value))
+					var t []edgeKey
+					if viaValidator(cm) {
+						for e := range failureEdges(fn, cm.(*ssa.Call)) {
+							t = append(t, e)
+						}
+					} else {
+						t, _ = condEdges(cm.(ssa.Value))
+					}
 					for _, e := range t {
 						if f2, w2 := (pathQuery{fn: fn, target: func(in ssa.Instruction) bool { return in == c }, avoid: isCmp}).find(ipos{e.from.Succs[e.succ], -1}); f2 {
 							okc, wit = false, w2
